@@ -23,15 +23,17 @@ def propagation_rule(ctx, rep, prop):
                     el = enum_val(facts, "ast::InterfaceElement", elname, {0: Opaque("member", None)})
                 elc = Cell(el)
                 itf = struct_val(facts, "ast::Interface", "interface", {"oneway": Const("bool", iow)})
-                m = Machine(facts, on_next=lambda il, elc=elc: Ref(elc, True))
+                m = Machine(facts, on_next=lambda il, elc=elc: Ref(elc, True), loop_once=True)
                 paths = m.run("validation::set_up_oneway_interface", [Ref(Cell(itf), True), sym_ref("diagnostics", mut=True)])
                 key = "interface.oneway=%s|%s|method.oneway=%s" % (iow, elname, mow)
                 if len(paths) != 1 or paths[0].exit != "return":
                     rep.fail("T1", "%s|T1|%s|paths" % (prop, key), cfg.where(fn), "expected one returning path, got %r" % ([p.exit for p in paths],))
                     continue
                 p = paths[0]
-                effs = [e for e in p.effects if e[0] not in ("iterate", "iterate_end")]
-                iters = [e for e in p.effects if e[0] == "iterate"]
+                effs = [e for e in p.effects if e[0] not in ("iterate", "iterate_end", "next", "next_end")]
+                # the iteration: a native chain (iterate) or a `for` loop (next) - over interface.elements, forwards
+                iters = [("iterate", e[1], e[2], e[3]) for e in p.effects if e[0] == "iterate"] + \
+                        [("next", "for", (e[1][1] if isinstance(e[1], tuple) and len(e[1]) == 2 and e[1][0] in ("iter", "iter_mut") else e[1]), fmt_label(e[1])) for e in p.effects if e[0] == "next"]
                 pushes = [diag_of(e) for e in effs if e[0] == "push" and e[1] == "diagnostics"]
                 assigns = [(e[1], e[2]) for e in effs if e[0] == "assign"]
                 other = [e for e in effs if e[0] not in ("push", "assign")]
